@@ -51,7 +51,22 @@ def gen(seed):
             if rng.random() < 0.1:
                 port = rng.randrange(16)       # may never match when bits outside the mask are set
             r = {'kind': 'header', 'port': port, 'pm': pm, 'ch': ch, 'cm': cm}
-        key = (r['port'], r['pm'], r['ch'], r['cm'])
+        # several registrations may share one callback object (distinct tuples, same function): a removal must then
+        # identify the registration by all five fields
+        r['cb'] = i
+        if i > 0 and rng.random() < 0.35:
+            j = rng.randrange(i)
+            r['cb'] = regs[j]['cb']
+            if rng.random() < 0.7:
+                # same port and channel values, other masks
+                r.update({'kind': 'header', 'port': regs[j]['port'], 'ch': regs[j]['ch'],
+                          'pm': rng.choice([0xFF, 0x0F, 0x1F, 0x8F, 0x0E | regs[j]['port']]) ,
+                          'cm': rng.choice([0xFF, 0x03, 0x00, 0x07, 0x01 | regs[j]['ch']])})
+        key = (r['port'], r['pm'], r['ch'], r['cm'], r['cb'])
+        if key in seen:
+            r['cb'] = i
+            key = (r['port'], r['pm'], r['ch'], r['cm'], r['cb'])
+        seen.add(key)
         r['initial'] = rng.random() < 0.7
         # script: list of actions for the k-th invocation
         script = {}
@@ -95,17 +110,33 @@ def directed(tier):
                              'script': ({'0': [[act, 4 if act == 'add' else i]]} if i == pos else {})})
             # distinct tuples: use header registrations with different channel masks that all match channel 0..3
             for i, r in enumerate(regs):
-                r.update({'kind': 'header', 'ch': 0, 'cm': 0, 'pm': [0xFF, 0x0F, 0x1F, 0x2F, 0x4F][i]})
+                r.update({'kind': 'header', 'ch': 0, 'cm': 0, 'pm': [0xFF, 0x0F, 0x1F, 0x2F, 0x4F][i], 'cb': i})
             n += 1
             plans.append({'seed': 950000 + n, 'scenario': 'directed-%s-at-%d' % (act, pos), 'regs': regs,
                           'ops': [['pk', 0x90, [1, 2]], ['pk', 0x91, [3]], ['pk', 0x93, []]],
                           'knobs': {'line_mean': 0, 'p_stall': 0.0}, 'all_cbs': 1, 'burst': True})
+    # one callback registered under two patterns that differ in a mask only; one of them is removed
+    for (a, b) in (({'kind': 'port', 'port': 9, 'pm': 0xFF, 'ch': 0, 'cm': 0}, {'kind': 'header', 'port': 9, 'pm': 0xFF, 'ch': 0, 'cm': 0xFF}),
+                   ({'kind': 'header', 'port': 8, 'pm': 0xFF, 'ch': 0, 'cm': 0x01}, {'kind': 'header', 'port': 8, 'pm': 0xFF, 'ch': 0, 'cm': 0x02}),
+                   ({'kind': 'port', 'port': 8, 'pm': 0xFF, 'ch': 0, 'cm': 0}, {'kind': 'header', 'port': 8, 'pm': 0x0E, 'ch': 0, 'cm': 0})):
+        for which in (0, 1):
+            for inside in (False, True):
+                n += 1
+                r0 = dict(a, initial=True, script={}, cb=0)
+                r1 = dict(b, initial=True, script={}, cb=0)
+                r2 = {'kind': 'port', 'port': a['port'], 'pm': 0xFF, 'ch': 0, 'cm': 0, 'initial': True, 'cb': 1,
+                      'script': ({'0': [['remove', which]]} if inside else {})}
+                ops = [['pk', (a['port'] << 4) | 0, [1]]] + ([] if inside else [['toggle', which]]) + \
+                      [['pk', (a['port'] << 4) | c, [c]] for c in range(4)] + [['pk', ((a['port'] | 1) << 4), [9]]]
+                plans.append({'seed': 950000 + n, 'scenario': 'directed-shared-callback', 'regs': [r0, r1, r2], 'ops': ops,
+                              'knobs': {'line_mean': 0, 'p_stall': 0.0}, 'all_cbs': 0, 'burst': True})
     for h0 in range(0, 256, 64):
         n += 1
         plans.append({'seed': 950000 + n, 'scenario': 'directed-all-headers',
-                      'regs': [{'kind': 'header', 'port': p, 'pm': 0xFF, 'ch': c, 'cm': 0xFF, 'initial': True, 'script': {}}
-                               for p in (0, 7, 15) for c in (0, 3)] +
-                              [{'kind': 'port', 'port': 9, 'pm': 0xFF, 'ch': 0, 'cm': 0, 'initial': True, 'script': {}}],
+                      'regs': [{'kind': 'header', 'port': p, 'pm': 0xFF, 'ch': c, 'cm': 0xFF, 'initial': True, 'script': {},
+                                'cb': k} for k, (p, c) in enumerate((p, c) for p in (0, 7, 15) for c in (0, 3))] +
+                              [{'kind': 'port', 'port': 9, 'pm': 0xFF, 'ch': 0, 'cm': 0, 'initial': True, 'script': {},
+                                'cb': 6}],
                       'ops': [['pk', h, [h]] for h in range(h0, h0 + 64)],
                       'knobs': {'line_mean': 0, 'p_stall': 0.0}, 'all_cbs': 1, 'burst': True})
     return plans
@@ -148,9 +179,9 @@ def execute(ctx):
             if active[i]:
                 return
             if r['kind'] == 'port':
-                cf.add_port_callback(r['port'], cbs[i])
+                cf.add_port_callback(r['port'], cbs[r.get('cb', i)])
             else:
-                cf.add_header_callback(cbs[i], r['port'], r['ch'], r['pm'], r['cm'])
+                cf.add_header_callback(cbs[r.get('cb', i)], r['port'], r['ch'], r['pm'], r['cm'])
             active[i] = True
             if cur['pk'] is not None:
                 touched[i].add(cur['pk'])
@@ -160,9 +191,9 @@ def execute(ctx):
             if not active[i]:
                 return
             if r['kind'] == 'port':
-                cf.remove_port_callback(r['port'], cbs[i])
+                cf.remove_port_callback(r['port'], cbs[r.get('cb', i)])
             else:
-                cf.remove_header_callback(cbs[i], r['port'], r['ch'], r['pm'], r['cm'])
+                cf.remove_header_callback(cbs[r.get('cb', i)], r['port'], r['ch'], r['pm'], r['cm'])
             active[i] = False
             if cur['pk'] is not None:
                 touched[i].add(cur['pk'])
@@ -190,7 +221,7 @@ def execute(ctx):
                         raise RuntimeError('scripted callback failure')
             return cb
         for i in range(n):
-            cbs.append(mk(i))
+            cbs.append(mk(i))       # callback object number i; registration r uses cbs[r['cb']]
 
         # all-packet callbacks; the first one marks the start of a dispatch
         def begin(pk):
@@ -245,7 +276,7 @@ def execute(ctx):
     seq = {'n': 0}
 
     verdict = sim.run(scenario)
-    if verdict[0] in ('deadlock', 'timeout'):
+    if verdict[0] in ('deadlock', 'timeout', 'livelock'):
         from simkit.harness import hang_signature
         sg, msg = hang_signature(verdict)
         ctx.violation('5', sg, msg, verdict[1])
@@ -258,9 +289,11 @@ def execute(ctx):
 
 
 def oracle(ctx, plan, regs, pkt_log, deliveries, all_deliv, touched, nraised):
+    """Per packet and per callback object: the number of deliveries must lie between the number of matching
+    registrations of that callback that were registered before the dispatch began and not touched during it (must)
+    and that number plus the matching registrations added/removed during the dispatch (may)."""
     n = len(regs)
-    # reconstruct, per packet, which registrations were active when its dispatch began
-    # by replaying the harness ops and the recorded deliveries' scripted side effects in order
+    cb_of = [r.get('cb', i) for i, r in enumerate(regs)]
     active = [r['initial'] for r in regs]
     count = [0] * n
     by_pk = {}
@@ -270,6 +303,7 @@ def oracle(ctx, plan, regs, pkt_log, deliveries, all_deliv, touched, nraised):
         ctx.violation('1', 'delivery-outside-dispatch', 'a port callback ran although no packet was being dispatched: %r'
                       % (by_pk[None][:3],))
         return
+    shared = len(set(cb_of)) < n
     fed = 0
     for op in plan['ops']:
         if op[0] == 'toggle':
@@ -281,61 +315,63 @@ def oracle(ctx, plan, regs, pkt_log, deliveries, all_deliv, touched, nraised):
         port, channel = (h & 0xF0) >> 4, h & 3
         before = list(active)
         got = by_pk.get(p, [])
-        got_regs = [d[1] for d in got]
-        # header / payload integrity
+        got_cbs = [d[1] for d in got]
         for d in got:
-            if d[2] != (h | 0x0C) and (d[2] & 0xF3) != (h & 0xF3):
+            if (d[2] & 0xF3) != (h & 0xF3):
                 ctx.violation('1', 'wrong-packet-delivered', 'packet %d header %#x delivered as %#x' % (p, h, d[2]))
                 return
             if d[3] != bytes(op[2]):
                 ctx.violation('1', 'payload-changed', 'packet %d payload %r delivered as %r' % (p, bytes(op[2]), d[3]))
                 return
-        # apply scripted effects of the delivered callbacks (in delivery order) to the model
-        for i in got_regs:
-            k = count[i]
-            count[i] += 1
-            for act, j in regs[i]['script'].get(str(k), []):
+        # apply the scripted effects of the delivered callbacks (in delivery order) to the model
+        for c in got_cbs:
+            k = count[c]
+            count[c] += 1
+            for act, j in regs[c]['script'].get(str(k), []):
                 if act == 'add':
                     active[j] = True
                 elif act == 'remove':
                     active[j] = False
                 elif act == 'remove-self':
-                    active[i] = False
+                    active[c] = False
                 elif act == 'remove-next':
-                    active[(i + 1) % n] = False
+                    active[(c + 1) % n] = False
                 elif act == 'remove-prev':
-                    active[(i - 1) % n] = False
+                    active[(c - 1) % n] = False
                 elif act == 'raise':
                     break
-        for i in range(n):
-            m = matches(regs[i], port, channel)
-            c = got_regs.count(i)
-            changed = p in touched[i]
-            if c > 1:
-                ctx.violation('1', 'delivered-twice', 'packet %d (header %#x) delivered %d times to registration %d %r'
-                              % (p, h, c, i, regs[i]))
+        for c in sorted(set(cb_of)):
+            mine = [i for i in range(n) if cb_of[i] == c]
+            must = [i for i in mine if matches(regs[i], port, channel) and before[i] and p not in touched[i]]
+            may = [i for i in mine if matches(regs[i], port, channel) and p in touched[i]]
+            d = got_cbs.count(c)
+            desc = [{k: regs[i][k] for k in ('port', 'pm', 'ch', 'cm')} for i in mine]
+            if d > len(must) + len(may):
+                if not must and not may:
+                    ctx.violation('1' if any(before[i] for i in mine) else '3',
+                                  'delivered-to-non-matching' if any(before[i] for i in mine) else 'delivered-to-unregistered',
+                                  'packet %d (port %d ch %d) delivered %d times to callback %d whose registrations %r do not '
+                                  'match / are not registered (registered: %r)' % (p, port, channel, d, c, desc,
+                                                                                 [before[i] for i in mine]))
+                else:
+                    ctx.violation('1', 'delivered-twice', 'packet %d (header %#x) delivered %d times to callback %d which has '
+                                  '%d matching registrations %r' % (p, h, d, c, len(must) + len(may), desc))
                 return
-            if not m and c:
-                ctx.violation('1', 'delivered-to-non-matching', 'packet %d (port %d ch %d) delivered to registration %d %r'
-                              % (p, port, channel, i, {k: regs[i][k] for k in ('port', 'pm', 'ch', 'cm')}))
-                return
-            if m and not before[i] and c and not changed:
-                ctx.violation('3', 'delivered-to-unregistered', 'packet %d delivered to registration %d which was not '
-                              'registered' % (p, i))
-                return
-            if m and before[i] and not changed and c == 0:
+            if d < len(must):
                 why = 'a callback raised earlier in this dispatch' if nraised else \
                     'another callback changed the registrations during this dispatch' if any(p in t for t in touched) \
-                    else 'nothing else happened'
+                    else ('an earlier removal of a sibling registration of the same callback' if shared
+                          else 'nothing else happened')
                 ctx.violation('1' if not nraised else '2', 'matching-callback-skipped',
-                              'packet %d (port %d ch %d) was not delivered to registration %d (registered before the '
-                              'dispatch began and not removed during it); %s' % (p, port, channel, i, why))
+                              'packet %d (port %d ch %d) delivered %d times to callback %d, which has %d matching registrations '
+                              'that were registered before the dispatch began and not removed during it (%r); %s'
+                              % (p, port, channel, d, c, len(must), [desc[mine.index(i)] for i in must], why))
                 return
     # arrival order per callback
     last = {}
     for d in deliveries:
         if d[1] in last and d[0] < last[d[1]]:
-            ctx.violation('1', 'out-of-order', 'registration %d got packet %d after packet %d' % (d[1], d[0], last[d[1]]))
+            ctx.violation('1', 'out-of-order', 'callback %d got packet %d after packet %d' % (d[1], d[0], last[d[1]]))
             return
         last[d[1]] = d[0]
     # all-packet callbacks: every packet exactly once, in order
